@@ -60,6 +60,13 @@ def _gen_grid(tier):
         for d2 in sorted(set([d, d + 1, max(1, d - 1)])):
             for mix in MIX2 + (MIX3 if tier != 'quick' or d == 1 else []):
                 out.append({'d': d, 'd2': d2, 'mix': mix})
+    # products of four and five factors (mixed second-order terms between non-adjacent factors, with non-constant factors in between)
+    MIX5 = MIX4 + [['mono2', 'id']]
+    out.append({'d': 1, 'd2': 1, 'mix': MIX4})
+    out.append({'d': 2, 'd2': 3, 'mix': MIX4})
+    out.append({'d': 1, 'd2': 2, 'mix': MIX5})
+    if tier != 'quick':
+        out.append({'d': 2, 'd2': 2, 'mix': MIX5})
     return out
 
 
